@@ -2,24 +2,67 @@ package main
 
 import (
 	"fmt"
+	"io"
+	"log/slog"
 	"os"
+	"time"
 
+	"github.com/glebziz/fs_db/verifh/checks"
+	"github.com/glebziz/fs_db/verifh/conc"
+	"github.com/glebziz/fs_db/verifh/hk"
 	"github.com/glebziz/fs_db/verifh/litmus"
 )
 
 func main() {
+	if os.Getenv("VERIF_SLOG") == "" {
+		slog.SetDefault(slog.New(slog.NewTextHandler(io.Discard, nil)))
+	}
 	if len(os.Args) < 2 {
-		fmt.Fprintln(os.Stderr, "usage: verifh <command> [args]")
+		fmt.Fprintln(os.Stderr, "usage: verifh selfcheck | check <ID> quick|thorough | worker | replay <file>")
 		os.Exit(2)
 	}
 	switch os.Args[1] {
 	case "selfcheck":
 		rep, err := litmus.Run()
-		fmt.Print(rep)
+		if os.Getenv("VERIF_VERBOSE") != "" {
+			fmt.Print(rep)
+		}
 		if err != nil {
 			fmt.Fprintln(os.Stderr, "SELF-CHECK FAILED:", err)
 			os.Exit(2)
 		}
+	case "worker":
+		conc.WorkerMain()
+	case "check":
+		if len(os.Args) < 4 {
+			fmt.Fprintln(os.Stderr, "usage: verifh check <ID> quick|thorough")
+			os.Exit(2)
+		}
+		if _, err := litmus.Run(); err != nil {
+			fmt.Fprintln(os.Stderr, "SELF-CHECK FAILED:", err)
+			os.Exit(2)
+		}
+		os.Exit(checks.Run(os.Args[2], os.Args[3]))
+	case "explore":
+		// debugging aid: verifh explore <scenario> <params> <bound>
+		var b int
+		fmt.Sscan(os.Args[4], &b)
+		pool, err := conc.NewPool(0)
+		if err != nil {
+			os.Exit(3)
+		}
+		defer pool.Close()
+		rp := hk.NewReporter("DBG")
+		hk.VerifDir = os.TempDir()
+		sum := conc.RunItems(rp, pool, []conc.Item{{Name: os.Args[2], Params: os.Args[3], MaxBound: b}}, hk.NewBudget(30*time.Minute), true)
+		fmt.Printf("executions %d outcomes %v\n", sum.Execs, sum.Outcomes)
+	case "replay":
+		r, err := hk.ReadReplay(os.Args[2])
+		if err != nil {
+			fmt.Fprintln(os.Stderr, err)
+			os.Exit(2)
+		}
+		os.Exit(checks.Replay(r))
 	default:
 		fmt.Fprintln(os.Stderr, "unknown command", os.Args[1])
 		os.Exit(2)
